@@ -38,6 +38,10 @@ class CallsMixin:
                 args.append(self.eval(a))
         for kw in node.keywords:
             if kw.arg is None:
+                kv = self.eval(kw.value)
+                if isinstance(kv, PyObj) and kv.tag == 'pykwargs':
+                    kwargs.update(kv.items)
+                    continue
                 raise Unsupported('**kwargs call')
             kwargs[kw.arg] = self.eval(kw.value)
         return self.call(fn, args, kwargs, node)
@@ -718,13 +722,47 @@ class CallsMixin:
             self.advance_alloc()
         sub.run_ghost(c.effects)
         res = K.NONE
-        if not isinstance(c.returns, K._None):
+        if c.returns is not None and not isinstance(c.returns, K._None):
+            if c.pure and all(isinstance(b, V) for b in bound.values()):
+                res = self.pure_result(c, bound)
+                self.assume_valid_new(res)
+                return res
             res = self.p.fresh_value(c.returns, 'ret!' + c.short)
             self.assume_valid_new(res)
         sub.result = res
         sub.spec = True
         for e in c.ensures:
             self.p.assume(sub.truth(sub.eval_text(e)))
+        return res
+
+    def pure_uf(self, c, bound):
+        """A pure function is a function of its arguments (and of the heap epoch if it may read the heap)."""
+        reads_heap = any(isinstance(b.kind, K.Ref) or (isinstance(b.kind, K.Opt) and isinstance(b.kind.inner, K.Ref))
+                         for b in bound.values())
+        epoch = self.p.heap_epoch if reads_heap else 0
+        arg_terms = [t for b in bound.values() for t in b.terms]
+        res = V(c.returns, [
+            self.p.ctx.ufunc('pure!%s!e%d!%d' % (c.name, epoch, i), *([t.sort() for t in arg_terms] + [srt]))(*arg_terms)
+            if arg_terms else z3.Const('pure!%s!%d' % (c.name, i), srt)
+            for i, srt in enumerate(c.returns.leaf_sorts())])
+        return res, epoch
+
+    def pure_result(self, c, bound):
+        res, epoch = self.pure_uf(c, bound)
+        key = (c.name, epoch)
+        if key not in self.p.pure_axioms and c.ensures:
+            self.p.pure_axioms.add(key)
+            # axiom: forall params. requires => ensures[result := f(params)]
+            qb = {n: self.p.fresh_value(b.kind, 'ax!' + n) for n, b in bound.items()}
+            sub = self.sub_interp(qb)
+            sub.spec = True
+            sub.snapshot_old()
+            sub.result, _ = self.pure_uf(c, qb)
+            pre = [sub.truth(sub.eval_text(r)) for r in c.requires]
+            post = [sub.truth(sub.eval_text(e)) for e in c.ensures]
+            bvars = [t for b in qb.values() for t in b.terms]
+            body = z3.Implies(z3.And(*pre) if pre else z3.BoolVal(True), z3.And(*post))
+            self.p.assume(z3.ForAll(bvars, body) if bvars else body)
         return res
 
     def assume_valid_new(self, v):
@@ -770,6 +808,7 @@ class CallsMixin:
         if owner is None:
             raise Unsupported('modifies names undeclared field %s' % key)
         self.p.havoc_n += 1
+        self.p.heap_epoch += 1
         self.p.heap['%s.%s' % (owner, f)] = [
             self.p.fresh('H!%s!%d' % (key, i), z3.ArraySort(z3.IntSort(), s))
             for i, s in enumerate(kind.leaf_sorts())]
